@@ -183,6 +183,12 @@ func cmdCheck(args []string) {
 		fmt.Println("ERROR:", err)
 		os.Exit(2)
 	}
+	// clauses recorded as open findings are not assumed at call sites: no proof rests on a clause known to be false
+	for _, kf := range kfs {
+		if kf.Kind == "finding" {
+			w.knownObl = append(w.knownObl, kf)
+		}
+	}
 	runProperty(w, res, *tier == "thorough", *timeout)
 	// classify
 	os.MkdirAll(*replays, 0o755)
@@ -322,14 +328,38 @@ func runProperty(w *World, res *checkResult, thorough bool, timeoutMs int) {
 	keys := propertyFuncs(w, p)
 	var all []*Obligation
 	safetyTags := []string{"C08"}
+	// The proof of a property is modular: a caller is checked against the contracts of its callees, so those
+	// contracts must themselves be verified. The work list starts with the functions listed for the property and is
+	// closed under "applies the contract of" (dependencies: everything but their safety obligations is relevant).
+	isDep := map[string]bool{}
+	queued := map[string]bool{}
 	for _, k := range keys {
+		queued[k] = true
+	}
+	for qi := 0; qi < len(keys); qi++ {
+		k := keys[qi]
 		fn := w.funcs[k]
 		if fn == nil {
 			res.Orphans = append(res.Orphans, shortKey(k))
 			continue
 		}
 		r := w.verifyFunc(fn, w.cs.Funcs[k], safetyTags, p == "C20")
+		r.Dep = isDep[k]
 		res.Funcs = append(res.Funcs, r)
+		if p != "C20" {
+			var more []string
+			for _, u := range r.Used {
+				if queued[u] {
+					continue
+				}
+				if dfc := w.cs.Funcs[u]; dfc != nil && (dfc.Kind == "func" || dfc.Kind == "closure") && !dfc.Inline && !dfc.Trusted && w.funcs[u] != nil {
+					queued[u], isDep[u] = true, true
+					more = append(more, u)
+				}
+			}
+			sort.Strings(more)
+			keys = append(keys, more...)
+		}
 		if r.Rejected != "" {
 			continue
 		}
@@ -339,11 +369,14 @@ func runProperty(w *World, res *checkResult, thorough bool, timeoutMs int) {
 		res.Inlined = append(res.Inlined, r.Inlined...)
 		res.Trusted = append(res.Trusted, r.Trusted...)
 		for _, o := range r.Obls {
-			if thorough || relevant(o, p) {
+			if isDep[k] && !hasTag(o.Tags, p) && w.isKnownFinding(o.Name, "") {
+				continue // an open finding of another property: that clause is assumed nowhere (see applyContract)
+			}
+			if thorough || relevant(o, p) || (isDep[k] && !strings.HasPrefix(o.Kind, "safety:")) {
 				all = append(all, o)
 			}
 		}
-		if fc := w.cs.Funcs[k]; fc.Implements != "" {
+		if fc := w.cs.Funcs[k]; fc.Implements != "" && !isDep[k] {
 			d := w.ifaceAsContract(fc)
 			if d == nil {
 				res.Orphans = append(res.Orphans, shortKey(k)+" implements "+fc.Implements)
@@ -865,4 +898,14 @@ var boundedExplanation = map[string]string{
 	"C07": "Level other: the framing (parseMessage) is under contract, but the EEBUS transform itself (ship.JsonIntoEEBUSJson / ship.JsonFromEEBUSJson: encoding/json, go-ordered-json, textual replaces) is outside the verifier's reach and is covered only by a BOUNDED stand-in: the real functions run on a seeded sample of a finite document scope against an oracle written from the property text (member order, number literals as text, SHIP shape). Failing documents are classified by cause; causes listed in known-findings.txt are KNOWN-FINDINGs, a failing document showing no listed cause is a violation. Nothing here is counted as proved for the transform.",
 	"C17": "The proof covers the key-set step and the fields of a new entry. The address clause (union, no duplicates, no IPv6 link-local) is covered only by a BOUNDED stand-in, labelled bounded and not counted as proved: sequences of 1-5 add/update/remove events over two services with addresses in both encodings are run through the real processMdnsEntry and compared with a model written from the property text.",
 	"C16": "Level other: length bounds, TXT record structure and entry field mapping are proved deductively (obligations listed); the string algorithms (UTF-8 validity of the 32-byte cut, '=' in values, ';' in QR fields, category parsing, QR parse-back) are covered only by a BOUNDED stand-in on the real functions over strings built around the 32-byte boundary.",
+}
+
+// isKnownFinding: the obligation name matches a `finding:` entry (of property p, or of any property if p is "").
+func (w *World) isKnownFinding(name, p string) bool {
+	for _, kf := range w.knownObl {
+		if (p == "" || kf.Property == p) && globMatch(kf.Obligation, name) {
+			return true
+		}
+	}
+	return false
 }
